@@ -751,7 +751,7 @@ func c01GenScript(rng *Rng, nWatch int, allowKnown bool) (script []string, known
 }
 
 func runC01(r *Run) {
-	r.Rule = "one REAL resourceInformer per case, driven through the verifsched yield points: the harness plays the callback thread (W1 cache section, W2 hand-over), snapshot readers tagged sync/foreign (S1 copy, S2 reset) and the unlock E in a generated interleaving, plus probes that try a step the model says is blocked by eventBufLock (unlock or hand-over while a reader is between copy and reset; unlock in the middle of the hand-over). Watch histories over <=3 objects (create, modify with changed/identical projection, delete, re-create, re-delivered Added), event-type subsets, jqFilter on/off, keepFullObjectsInMemory on/off. Non-trivial: >=2 watch events fire and the schedule interleaves a reader or the unlock between two watch steps. distinct = distinct op-line sequences. Monitor level: one REAL monitor with a namespace.labelSelector binding on the fake cluster; EnableKubeEventCb is interleaved at its yield points with namespace-added callbacks triggered by creating namespaces; afterwards an object is created in every namespace and must reach the event callback. Operator level (exploration, uncontrolled scheduling): a whole ShellOperator on the fake cluster with one real bash hook (group / queue / jqFilter / event-type / failing-Synchronization variants); the cluster changes before start, while each Synchronization attempt is running and afterwards; oracles on the binding-context files the hook received. Operator, window inside the Synchronization run: the run is parked at a yield point of monitor.Snapshot() (before / after each read it makes), the cluster changes there; sweep group x empty/non-empty view x yield point, quiet cases without a later sentinel object. Operator, layouts: 2-5 kubernetes bindings of one hook in blocks (two bindings of one group, or one binding; allowFailure / executeHookOnSynchronization per block, queue per binding); every hook execution is held, the lock state of every binding is observed while it is held and the cluster changes; per binding: unlocked only after its own successful Synchronization, no Event before it, view + Events = cluster. Hook-level dimensions of the layouts: legacy v0 config (onKubernetesEvent, loaded by the real loader; Events in the v0 shape, existence replay), namespace.labelSelector with NO matching namespace at start (the first one appears with objects while the first run is held), 0-2 failing Synchronization runs (combined ones included), one group shared by blocks with and without executeHookOnSynchronization. A binding that is still locked when every Synchronization task has left the main queue is decided as never unlocked (no clock): op-unlock oracle. Monitor level: after every step, no informer passes events before the unlock has begun (m-locked oracle)."
+	r.Rule = "one REAL resourceInformer per case, driven through the verifsched yield points: the harness plays the callback thread (W1 cache section, W2 hand-over), snapshot readers tagged sync/foreign (S1 copy, S2 reset) and the unlock E in a generated interleaving, plus probes that try a step the model says is blocked by eventBufLock (unlock or hand-over while a reader is between copy and reset; unlock in the middle of the hand-over). Watch histories over <=3 objects (create, modify with changed/identical projection, delete, re-create, re-delivered Added), event-type subsets, jqFilter on/off, keepFullObjectsInMemory on/off. Non-trivial: >=2 watch events fire and the schedule interleaves a reader or the unlock between two watch steps. distinct = distinct op-line sequences. Monitor level: one REAL monitor with a namespace.labelSelector binding on the fake cluster; EnableKubeEventCb is interleaved at its yield points with namespace-added callbacks triggered by creating namespaces; afterwards an object is created in every namespace and must reach the event callback. Operator level (exploration, uncontrolled scheduling): a whole ShellOperator on the fake cluster with one real bash hook (group / queue / jqFilter / event-type / failing-Synchronization variants); the cluster changes before start, while each Synchronization attempt is running and afterwards; oracles on the binding-context files the hook received. Operator, window inside the Synchronization run: the run is parked at a yield point of monitor.Snapshot() (before / after each read it makes), the cluster changes there; sweep group x empty/non-empty view x yield point, quiet cases without a later sentinel object. Operator, layouts: 2-5 kubernetes bindings of one hook in blocks (two bindings of one group, or one binding; allowFailure / executeHookOnSynchronization per block, queue per binding); every hook execution is held, the lock state of every binding is observed while it is held and the cluster changes; per binding: unlocked only after its own successful Synchronization, no Event before it, view + Events = cluster. Hook-level dimensions of the layouts: legacy v0 config (onKubernetesEvent, loaded by the real loader; Events in the v0 shape, existence replay), namespace.labelSelector with NO matching namespace at start (the first one appears with objects while the first run is held), 0-2 failing Synchronization runs (combined ones included), one group shared by blocks with and without executeHookOnSynchronization. A binding that is still locked when every Synchronization task has left the main queue is decided as never unlocked (no clock): op-unlock oracle. Monitor level: after every step, no informer passes events before the unlock has begun (m-locked oracle). Operator, layouts with LATER executions held (fixed shapes: one grouped binding in main / own queue, two bindings of one group, group + ungrouped; 35% of the generated layouts): after the Synchronization phase every Event / Group execution is held as well; per round the cluster changes until an execution is held (it has read its snapshots), changes again while that execution is the running head (often the only task) of its queue, then the execution is released; such cases end quiet (no sentinel, no later change: rest = nothing running, queues empty, informer caches = cluster for a long period, stretched when what the hook got does not account for the final state yet). KubeEventsManager level, shared informers: 2-4 monitors over ConfigMaps of one or two namespaces (static name selectors that mostly overlap, namespace.labelSelector monitors) on ONE manager, so that their resource informers share factory entries; generated scripts of start (add + start + Synchronization view + changes that must be buffered + unlock) / StopMonitor / change / namespace delete (objects first) / namespace re-create; fixed cases: the monitor that started the shared informer stops, the one that joined stops, a labelSelector sibling loses the namespace (both start orders); one goroutine consumes the event channel; a sentinel per namespace at the end; per surviving monitor view + Events = final matching state (replay oracle); never-delivered is decided by IsStopped() of the shared informer the monitor is registered with, a merely late sentinel is inconclusive."
 	all := []string{"a", "m", "d"}
 	// corpus: the proved witness schedules (Props/C01.lean), adapted to the repaired step alphabet
 	r.One(0, func(c *Case, rng *Rng) {
@@ -808,6 +808,7 @@ func runC01(r *Run) {
 	runC01OperatorWindow(r)
 	runC01Operator2(r)
 	runC01Operator3(r)
+	runC01Shared(r)
 	// the recorded finding class, explored separately (expected to fail the oracle)
 	r.Cases(900000, r.N(20, 200), 0, func(c *Case, rng *Rng) {
 		watch := c01GenWatch(rng, rng.Range(1, 5))
